@@ -4,6 +4,8 @@ package main
 // registry, sorts for Go types, locations (addresses) and obligations.
 
 import (
+	"os"
+	"runtime/debug"
 	"fmt"
 	"go/types"
 	"sort"
@@ -128,6 +130,9 @@ func (vc *VC) def(base string, t Term) Term {
 	}
 	vc.nfresh++
 	name := quote(fmt.Sprintf("%s!%d", base, vc.nfresh))
+	if base == "h" && t.Sort == "(Array Int Int)" && os.Getenv("GOVC_DEBUG") != "" {
+		fmt.Fprintf(os.Stderr, "debug: def %s %s\n%s\n", name, t.S, debug.Stack())
+	}
 	vc.lines = append(vc.lines, fmt.Sprintf("(define-fun %s () %s %s)", name, t.Sort, t.S))
 	return Term{name, t.Sort}
 }
